@@ -103,13 +103,13 @@ def openToken {σ} (dm : Daemon σ) (s0 : σ) (tc : TokenConf) : ScdConn σ × O
 def findKey (infos : List ScdKey) (id : Bytes) : Option ScdKey :=
   infos.find? fun kc => id.isEmpty || id = kc.keyId
 
-/-- `scdToken.GetKey` -/
-def getKey {σ} (dm : Daemon σ) (t : Token σ) (name : String) : Token σ × Out Key :=
+/-- `scdToken.GetKey`, parametrised by what happens when no key info matches (`key` stays nil) -/
+def getKeyWith {σ} (onNil : Out Key) (dm : Daemon σ) (t : Token σ) (name : String) : Token σ × Out Key :=
   match t.conf.keys.find? (·.name = name) with
   | none => (t, .fail (.msg "nokeyconf"))
   | some kc =>
     match findKey t.keyInfos kc.id with
-    | none => (t, .panic "scdtoken.GetKey:key.KeyId (nil key)")      -- `key.KeyId` with `key == nil`
+    | none => (t, onNil)
     | some k =>
       if k.keyId.isEmpty then (t, .fail (.msg "notfound")) else
       match scdPublic dm t.sock.conn k with
@@ -117,6 +117,14 @@ def getKey {σ} (dm : Daemon σ) (t : Token σ) (name : String) : Token σ × Ou
       | (c, .fail e) => ({ t with sock := { t.sock with conn := c } }, .fail e)
       | (c, .panic x) => ({ t with sock := { t.sock with conn := c } }, .panic x)
       | (c, .block) => ({ t with sock := { t.sock with conn := c } }, .block)
+
+/-- `scdToken.GetKey` as it is (commit e11c4f9): `if key == nil || key.KeyId == ""` → "key … not found in token …" -/
+def getKey {σ} (dm : Daemon σ) (t : Token σ) (name : String) : Token σ × Out Key :=
+  getKeyWith (.fail (.msg "notfound")) dm t name
+
+/-- `scdToken.GetKey` BEFORE e11c4f9: `if key.KeyId == ""` with `key == nil` — a nil dereference (finding F-SCD-1) -/
+def getKeyOrig {σ} (dm : Daemon σ) (t : Token σ) (name : String) : Token σ × Out Key :=
+  getKeyWith (.panic "scdtoken.GetKey:key.KeyId (nil key)") dm t name
 
 /-- `scdKey.Sign` (under the token mutex): `key.key.Sign(digest, opts, key.token.pin)` -/
 def keySign {σ} (dm : Daemon σ) (t : Token σ) (k : Key) (digest : Bytes) (opts : SignOpts) : Token σ × Out Bytes :=
